@@ -877,8 +877,12 @@ def packet_copies(rep, prog, rid, classnames):
                 fld = m.group(1).lstrip('_')
                 src = re.sub(r'^(?:copy\.copy|copy\.deepcopy|bytearray|bytes|list)\((.*)\)$', r'\1', v)
                 src = re.sub(r'(\[:\]|\.copy\(\))$', '', src)
+                src = re.sub(r'^SLICE\((.*);;\)$', r'\1', src)                 # x[:] of an octet string
                 if src in ('%s.%s' % (cme, fld), '%s._%s' % (cme, fld)):
                     carried.add(fld)
+            # a field left at its default on a path that decided on the source's value of it (`if self.ct is not None:`) is carried
+            decided = {x.lstrip('_') for f_ in s.facts for x in re.findall(r'(?<![\w.])%s\.(\w+)' % re.escape(cme), f_[0])}
+            carried |= (emitted & decided)
             missing = sorted(emitted - carried)
             rep.check(not missing and bool(emitted), rid, '%s.__copy__' % cname, 'writer emits %s, copy carries %s' % (sorted(emitted), sorted(carried)),
                       'a copied packet must carry every field its writer emits (a copy rebuilt from a derived view exports a truncated packet)',
